@@ -160,7 +160,49 @@ def _t_vc():
     return d.a.value_counts(split_out=2)
 
 
-TARGETED = [_t_nested_fused, _t_bcast_in_fused, _t_partitions_shuffle, _t_tree, _t_tree_scalar, _t_staged, _t_bcast_join, _t_repart_div, _t_repart_more,
+def _t_two_repartitions_more():
+    import dask_expr as dx
+
+    pdf, d = _t_base(24, 2)
+    u = d.clear_divisions()
+    return dx.concat([u.repartition(npartitions=4), u.repartition(npartitions=5), u.repartition(npartitions=7)])
+
+
+def _t_two_repartitions_str_index():
+    import dask_expr as dx
+
+    pdf, d = _t_base(24, 3)
+    s = dx.from_pandas(pdf.set_index(pdf.rid.map(lambda v: "k%03d" % v)), npartitions=3)
+    return dx.concat([s.repartition(npartitions=7), s.repartition(npartitions=8)])
+
+
+def _t_two_shuffles_same_frame():
+    import dask_expr as dx
+
+    pdf, d = _t_base(40, 6)
+    return dx.concat([d.shuffle("a", npartitions=3, max_branch=2), d.shuffle("a", npartitions=6, max_branch=2), d.shuffle("c", npartitions=6)])
+
+
+def _t_two_tree_reductions():
+    pdf, d = _t_base(60, 12)
+    return d.b.sum(split_every=2) + d.b.sum(split_every=3) + d.b.sum()
+
+
+def _t_two_setindex():
+    import dask_expr as dx
+
+    pdf, d = _t_base(40, 5)
+    return dx.concat([d.set_index("c", npartitions=2), d.set_index("c", npartitions=4)])
+
+
+def _t_preoptimized_operand():
+    pdf, d = _t_base(40, 4)
+    inner = ((d.b + 1) * 2).optimize()
+    return (d.a - inner + 5).to_frame()
+
+
+TARGETED = [_t_two_repartitions_more, _t_two_repartitions_str_index, _t_two_shuffles_same_frame, _t_two_tree_reductions, _t_two_setindex, _t_preoptimized_operand,
+            _t_nested_fused, _t_bcast_in_fused, _t_partitions_shuffle, _t_tree, _t_tree_scalar, _t_staged, _t_bcast_join, _t_repart_div, _t_repart_more,
             _t_repart_size, _t_cum, _t_overlap, _t_persist, _t_delayed, _t_setindex, _t_sort, _t_merge_hash, _t_concat, _t_vc]
 
 
